@@ -176,6 +176,22 @@ func Scenarios2() []History {
 	)
 	add("D12-restart-with-batches-used-up", smallParams(), map[string]int64{"c1": 200, "c2": 200}, ops...)
 
+	// the total is lowered to the number of batches already issued while the context waits for its next
+	// batch (frequency above timeout): when that block comes the context is finished, not served again
+	ops = registry(map[string]int64{"p1": 5})
+	ops = append(ops,
+		Ev{Name: "Call", Signer: "c1", Svc: "s1", Provs: []string{"p1"}, Cap: 10, Timeout: 1, Rep: true, Freq: 3, Total: 3},
+		Ev{Name: "Call", Signer: "c2", Svc: "s1", Provs: []string{"p1"}, Cap: 10, Timeout: 1, Rep: true, Freq: 3, Total: 3},
+		eb(1), eb(1), // batch 1 expired, batch 2 due at height 4
+		Ev{Name: "UpdateContext", Signer: "c1", ID: 1, Total: 1},
+		Ev{Name: "Pause", Signer: "c2", ID: 2},
+		Ev{Name: "UpdateContext", Signer: "c2", ID: 2, Total: 1},
+		eb(1),
+		Ev{Name: "Start", Signer: "c2", ID: 2},
+		eb(1), eb(1), eb(1),
+	)
+	add("total-lowered-to-the-batches-had", smallParams(), nil, ops...)
+
 	return hs
 }
 
